@@ -235,7 +235,11 @@ func (f *ownFam) Random(rng *rand.Rand) M {
 	case r < 92:
 		if len(files) > 0 { // mostly: somebody (owner or not) replays a delete for an existing file's (merkle, start)
 			uf := files[rng.Intn(len(files))]
-			return M{"a": "deletefile", "s": acc(), "m": f.roots[string(uf.Merkle)], "st": uf.Start}
+			st := uf.Start
+			if rng.Intn(4) == 0 { // a start that names no file (0, or one off): must delete nothing, whoever sends it
+				st = []int64{0, 0, uf.Start + 1, uf.Start - 1}[rng.Intn(4)]
+			}
+			return M{"a": "deletefile", "s": acc(), "m": f.roots[string(uf.Merkle)], "st": st}
 		}
 		return M{"a": "deletefile", "s": acc(), "m": "m1", "st": f.ctx.BlockHeight()}
 	case r < 97:
